@@ -127,3 +127,116 @@ package multicast
 //@   assert call fn: [C12 only-poller-errors] err != nil && arg0 == err
 //@   assert call asyncWriteNow: [C12 resumed-as-started] alias(arg1, r.b) && arg2 == r.addr && arg3 == r.fn
 //@   consumes r.fn unless upArmedW(r.peer)
+
+// --- settings (C12): what the peer reports is what the socket was last successfully told ---
+
+//@ func (*UDPPeer).SetLoop
+//@   prop C12
+//@   requires p.socket != nil
+//@   assert call SetMulticastLoop: arg0 == p.socket && arg1 == loop
+//@   remember after call SetMulticastLoop: told = result == nil
+//@   // the cached value follows the kernel: updated exactly when the kernel accepted the new one
+//@   ensures [cache-follows-kernel] (told ==> p.loop == loop) && (!told ==> p.loop == old(p.loop))
+//@   ensures [outcome] (result == nil) == told
+
+//@ func (*UDPPeer).Loop
+//@   prop C12
+//@   ensures [cached] result == p.loop
+//@   modifies nothing
+
+//@ func (*UDPPeer).SetTTL
+//@   prop C12
+//@   requires p.socket != nil
+//@   assert call SetMulticastTTL: arg0 == p.socket && arg1 == ttl
+//@   remember after call SetMulticastTTL: told = result == nil
+//@   ensures [cache-follows-kernel] (told ==> p.ttl == ttl) && (!told ==> p.ttl == old(p.ttl))
+//@   ensures [outcome] (result == nil) == told
+
+//@ func (*UDPPeer).TTL
+//@   prop C12
+//@   ensures [cached] result == p.ttl
+//@   modifies nothing
+
+//@ func (*UDPPeer).SetAll
+//@   prop C12
+//@   requires p.socket != nil
+//@   assert call SetMulticastAll: arg0 == p.socket && arg1 == all
+//@   remember after call SetMulticastAll: told = result == nil
+//@   ensures [cache-follows-kernel] (told ==> p.all == all) && (!told ==> p.all == old(p.all))
+//@   ensures [outcome] (result == nil) == told
+
+//@ func (*UDPPeer).All
+//@   prop C12
+//@   ensures [cached] result == p.all
+//@   modifies nothing
+
+// Interface lookup and the IP_MULTICAST_IF wrapper (loops over interface addresses, type
+// switches over net.Addr) are outside the contracts: they allocate and write nothing that existed.
+//@ func resolveMulticastInterface
+//@   trusted
+//@   modifies nothing
+//@ func ipv4.SetMulticastInterface
+//@   trusted
+//@   modifies nothing
+
+//@ func (*UDPPeer).SetOutboundIPv4
+//@   prop C12
+//@   requires p.socket != nil
+//@   assert call SetMulticastInterface: arg0 == p.socket
+//@   remember after call SetMulticastInterface: told = result1 == nil
+//@   // the reported outbound interface changes only when the kernel accepted the new one
+//@   ensures [cache-only-on-success] !told ==> p.outbound == old(p.outbound) && p.outboundIP == old(p.outboundIP)
+//@   remember after call resolveMulticastInterface: which := result0
+//@   ensures [cache-follows-kernel] told ==> p.outbound == which
+
+// --- membership (C12): the peer asks the kernel for exactly the operation its caller named ---
+// (what the kernel then delivers is outside the code)
+
+//@ func (*UDPPeer).joinIPv4
+//@   prop C12
+//@   requires p.socket != nil
+//@   // any-source join when no source is given, source-specific join otherwise; same group, interface, source
+//@   assert call ipv4.AddMembership: sourceIP.addr.hi == 0 && sourceIP.addr.lo == 0 && sourceIP.z.value == nil &&
+//@          arg0 == p.socket && arg1 == multicastIP && arg2 == iff
+//@   assert call ipv4.AddSourceMembership: !(sourceIP.addr.hi == 0 && sourceIP.addr.lo == 0 && sourceIP.z.value == nil) &&
+//@          arg0 == p.socket && arg1 == multicastIP && arg2 == sourceIP && arg3 == iff
+//@   remember call ipv4.AddMembership: joined = true
+//@   remember call ipv4.AddSourceMembership: joinedSource = true
+//@   ensures [request-made] joined != joinedSource
+
+//@ func (*UDPPeer).leaveIPv4
+//@   prop C12
+//@   requires p.socket != nil
+//@   assert call ipv4.DropMembership: sourceIP.addr.hi == 0 && sourceIP.addr.lo == 0 && sourceIP.z.value == nil &&
+//@          arg0 == p.socket && arg1 == multicastIP
+//@   assert call ipv4.DropSourceMembership: !(sourceIP.addr.hi == 0 && sourceIP.addr.lo == 0 && sourceIP.z.value == nil) &&
+//@          arg0 == p.socket && arg1 == multicastIP && arg2 == sourceIP
+//@   remember call ipv4.DropMembership: left = true
+//@   remember call ipv4.DropSourceMembership: leftSource = true
+//@   ensures [request-made] left != leftSource
+
+//@ func (*UDPPeer).blockIPv4
+//@   prop C12
+//@   requires p.socket != nil
+//@   assert call ipv4.BlockSource: arg0 == p.socket && arg1 == multicastIP && arg2 == sourceIP
+//@   remember call ipv4.BlockSource: asked = true
+//@   ensures [request-made] asked
+
+//@ func (*UDPPeer).unblockIPv4
+//@   prop C12
+//@   requires p.socket != nil
+//@   assert call ipv4.UnblockSource: arg0 == p.socket && arg1 == multicastIP && arg2 == sourceIP
+//@   remember call ipv4.UnblockSource: asked = true
+//@   ensures [request-made] asked
+
+// --- Close (C13, C01, C03) ---
+//@ func (*UDPPeer).Close
+//@   prop C13, C01, C03
+//@   requires upInv(p)
+//@   // only the first Close reaches the socket
+//@   assert call Socket).Close: [C13 first-close-only] !old(p.closed)
+//@   ensures [C13 already-closed] old(p.closed) ==> p.closed && (forall k :: FDOPEN[k] == old(FDOPEN[k]))
+//@   ensures [disarmed] !old(p.closed) ==> !upArmedR(p) && !upArmedW(p) && p.closed
+//@   ensures [accounting] !old(p.closed) ==> p.ioc.poller.pending == old(p.ioc.poller.pending) - (old(upArmedR(p)) ? 1 : 0) - (old(upArmedW(p)) ? 1 : 0)
+//@   ensures [C13 released] !old(p.closed) && old(p.socket.fd) >= 0 ==> FDOPEN[old(p.socket.fd)] == 0
+//@   ensures [C13 nothing-else] forall k :: k != old(p.socket.fd) ==> FDOPEN[k] == old(FDOPEN[k])
